@@ -84,7 +84,9 @@ func (p *parser) error(place interface{}, msg string, msgValues ...interface{}) 
 	}
 
 	position := p.position(idx)
-	msg = fmt.Sprintf(msg, msgValues...)
+	if len(msgValues) > 0 {
+		msg = fmt.Sprintf(msg, msgValues...)
+	}
 	p.errors.Add(position, msg)
 }
 
